@@ -387,6 +387,9 @@ class HeapMixin:
     def symlist_elem(self, ref, r, pos):
         if r.arr is not None:
             return self.wrap(r.elem, z3.Select(r.arr, pos))
+        for (ap, av) in reversed(r.appended):
+            if self.run.decide(E.simp(pos == ap), "index of an appended element"):
+                return av
         if r.elem[0] == "obj":
             epos = E.simp(pos + r.shift) if not isinstance(r.shift, int) or r.shift else E.simp(pos) if not isinstance(pos, int) else pos
             nm = f"{r.sym}[{epos}]"
@@ -435,6 +438,8 @@ class HeapMixin:
             except (E.Unsupported, z3.Z3Exception):
                 r.arr = None
                 r.elem = ("any",)
+        if r.arr is None:
+            r.appended.append((E.simp(r.length + (r.shift if not isinstance(r.shift, int) or r.shift else 0)) if False else E.simp(r.length), v))
         if r.cnt and isinstance(v, VRef):
             for cn in list(r.cnt):
                 r.cnt[cn] = r.cnt[cn] + z3.If(self.counter_pred(r.elem[1], cn, v), 1, 0)
@@ -469,7 +474,11 @@ class HeapMixin:
                     return z3.BoolVal(False)
                 return z3.Or([self.eq(k, ok) for ok, _ in others])
             return z3.Or([self.eq(k, ok) for ok, _ in r.items.values()] or [z3.BoolVal(False)])
-        return z3.Select(r.dom, self.term_of(k, r.ktype))
+        kt_ = self.term_of(k, r.ktype)
+        if r.sym is not None and not self.run.old_alias.get(ref.oid):
+            # emptiness agrees with membership (instance of: forall x. x in d => len(d) > 0), on the entry-state map
+            self.run.assume(z3.Implies(z3.Select(z3.Array(f"{r.sym}#dom", r.dom.sort().domain(), z3.BoolSort()), kt_), z3.Int(f"{r.sym}#size") > 0), persist=True)
+        return z3.Select(r.dom, kt_)
 
     def dict_get(self, ref, k, default=None, raise_missing=True):
         run = self.run
@@ -576,7 +585,10 @@ class HeapMixin:
         r = self.run.rec(ref.oid)
         if r.concrete:
             return z3.Or([self.eq(v, x) for x in r.items] or [z3.BoolVal(False)])
-        return z3.Select(r.dom, self.term_of(v, r.etype))
+        vt_ = self.term_of(v, r.etype)
+        if r.sym is not None and "#" not in r.sym and "setop" not in r.sym:
+            self.run.assume(z3.Implies(z3.Select(z3.Array(f"{r.sym}#dom", r.dom.sort().domain(), z3.BoolSort()), vt_), z3.Int(f"{r.sym}#size") > 0), persist=True)
+        return z3.Select(r.dom, vt_)
 
     def set_add(self, ref, v):
         r = self.run.rec(ref.oid)
